@@ -30,7 +30,7 @@ impl Prop for C18 {
         "C18"
     }
     fn rule(&self) -> String {
-        "single-edge graphs of both directions, with and without self-loops, n in 1..=14 (and one case in 3000 with a procedurally generated sparse graph of 200..2500 nodes, tolerance capped at 0.2/n), unweighted or non-negative dyadic weights (zeros included), shapes with slow convergence (paths, bipartite/layered DAGs, stars) and fast (regular, complete); every graph is evaluated on the grid max_iter in {1,2,5,20,100,1000} x 3 generated tolerances in [1e-12,1e-2], each call repeated twice (summation order varies with hash order). On Ok(x): one entry per node, all >= 0, | ||x||_2 - 1 | <= 1e-9, and one further documented step y = normalise(x + A^T x) satisfies ||y - x||_2 <= 2 ||I + A^T||_F n tol + 1e-9 (derived from the convergence test; sound for n <= 14, see DESIGN.md). On Err: PowerIterationFailedConvergence. Metamorphic: Ok at (k, tol) => Ok at any (k' >= k, tol' >= tol(1+1e-6)). Non-trivial = n >= 3, the graph is an asymmetric directed graph or a slow-converging shape, and both Ok and Err outcomes occur on the grid; distinct = distinct serialised case.".into()
+        "single-edge graphs of both directions, with and without self-loops, n in 1..=14 (and one case in 3000 with a procedurally generated sparse graph of 200..2500 nodes, tolerance capped at 0.2/n), unweighted or non-negative dyadic weights (zeros included), shapes with slow convergence (paths, bipartite/layered DAGs, stars) and fast (regular, complete); every graph is evaluated on the grid max_iter in {1,2,5,20,100,1000} x 3 generated tolerances in [1e-12,1e-2], each call repeated twice (summation order varies with hash order). On Ok(x): one entry per node, all >= 0, | ||x||_2 - 1 | <= 1e-9, and one further documented step y = normalise(x + A^T x) satisfies ||y - x||_2 <= 2 ||I + A^T||_F n tol + 1e-9 (derived from the convergence test; sound for n <= 14, see DESIGN.md). On Err: PowerIterationFailedConvergence. Large graphs (incl. one fixed graph of 66 000 nodes) are additionally evaluated, as generated and in a very sparse variant (one edge in sixteen, hubs removed), at tolerances 1e-2, 5e-3 and the generated one, where entries, signs and the unit norm are checked. Metamorphic: Ok at (k, tol) => Ok at any (k' >= k, tol' >= tol(1+1e-6)). Non-trivial = n >= 3, the graph is an asymmetric directed graph or a slow-converging shape, and both Ok and Err outcomes occur on the grid; distinct = distinct serialised case.".into()
     }
     fn assumptions(&self) -> Vec<String> {
         vec![
@@ -176,6 +176,51 @@ impl Prop for C18 {
                 }
                 grid.push((mi, *tol, outcome.unwrap_or(false)));
             }
+        }
+        // Large graphs, loose tolerances, other densities: the residual bound above needs n * tol to
+        // be small, but the rest of the statement (one entry per node, non-negative, unit norm) does
+        // not. The graph itself and a very sparse variant (one edge in sixteen, hubs removed: most
+        // nodes isolated) are evaluated at the loosest admissible tolerance and at the case's own.
+        if big && out.failures.is_empty() {
+            let mut sparse = ng.clone();
+            let mut k = 0usize;
+            sparse.edges.retain(|(i, j, _)| {
+                k += 1;
+                *i >= 2 && *j >= 2 && k % 16 == 0
+            });
+            let raw_tol = case.tols.first().map_or(1e-2, |t| 10f64.powf(-(2.0 + *t as f64 / 25.5)));
+            for (what, g2) in [("as_generated", &ng), ("very_sparse", &sparse)] {
+                let graph2 = if what == "as_generated" { None } else { Some(g2.build()) };
+                let gr = graph2.as_ref().unwrap_or(&graph);
+                for tol in [1e-2, 5e-3, raw_tol] {
+                    out.api_calls += 1;
+                    match guard(|| eigenvector_centrality(gr, weighted, Some(100), Some(tol))) {
+                        Err(p) => {
+                            out.fail(format!("eigenvector_centrality/panic/{}", panic_class(&p)), p);
+                            return out;
+                        }
+                        Ok(Err(e)) => {
+                            out.check(kind_of(&e) == "PowerIterationFailedConvergence", "eigenvector_centrality/error/kind", || kind_of(&e));
+                        }
+                        Ok(Ok(x)) => {
+                            if x.len() != n || !g2.names.iter().all(|k| x.contains_key(k)) {
+                                out.fail("eigenvector_centrality/keys/one_entry_per_node", format!("{} entries for {} nodes ({}, tol {:e})", x.len(), n, what, tol));
+                                return out;
+                            }
+                            if x.values().any(|e| !(*e >= 0.0)) {
+                                out.fail("eigenvector_centrality/entries/negative_or_nan", format!("{} graph, tol {:e}", what, tol));
+                                return out;
+                            }
+                            let norm: f64 = x.values().map(|e| e * e).sum::<f64>().sqrt();
+                            if (norm - 1.0).abs() > 1e-9 {
+                                out.fail("eigenvector_centrality/norm/not_unit", format!("||x|| = {} (n = {}, {} graph with {} edges, tol {:e})", norm, n, what, g2.edges.len(), tol));
+                                return out;
+                            }
+                        }
+                    }
+                }
+            }
+            out.class("large_graph_loose_tolerance_and_sparse_variant");
         }
         // metamorphic monotonicity
         for (mi1, t1, ok1) in &grid {
